@@ -259,6 +259,8 @@ def run(tier, seed, model):
         if len(camp.samples) < 4 and i % 101 == 0:
             camp.samples.append({"version": version.decode(), "password_required": pwreq, "messages": len(msgs),
                                  "stream_bytes": len(stream)})
+    if not camp.oracle_failures:
+        reconnects(camp, rng, 30 if tier == "quick" else 600)
     if model is not None:
         for ans, (per_chunk, kind, i) in zip(model.call_many(reqs), meta):
             m = model_events(ans)
@@ -275,6 +277,64 @@ def run(tier, seed, model):
                  "chunk during which each entry is written are judged, and every run is compared with the Coq model; "
                  "non-trivial = distinct session")
     return camp
+
+
+def reconnects(camp, rng, n):
+    """vnclog FILE serving several viewers, one after the other or overlapping: every session's entries reach the file"""
+    import os
+    import tempfile
+    from vncdotool import loggingproxy as lp
+    tmp = tempfile.mkdtemp(prefix="c17-")
+    try:
+        for i in range(n):
+            path = os.path.join(tmp, "log%d.vdo" % (i % 4))
+            factory = lp.VNCLoggingServerFactory("server.example", 5900)
+            out = open(path, "w")
+            factory.output = out
+            overlapping = rng.random() < 0.5
+            want, why = [], None
+            sessions = []
+            try:
+                first = Proxy(factory=factory)
+                second = Proxy(factory=factory) if overlapping else None
+                for h in viewer_handshake(b"003.008"):
+                    first.from_viewer(h)
+                    if second is not None:
+                        second.from_viewer(h)
+                for k in range(rng.randrange(1, 4)):
+                    ch = rng.choice("abcxyz")
+                    why = why or first.from_viewer(key_event(1, ord(ch)))
+                    want.append(["keydown", ch])
+                why = why or first.lose()
+                for r in range(rng.randrange(1, 3)):          # viewers that come (back) after the first one left
+                    if second is None:
+                        second = Proxy(factory=factory)
+                        for h in viewer_handshake(b"003.008"):
+                            second.from_viewer(h)
+                    for k in range(rng.randrange(1, 4)):
+                        ch = rng.choice("abcxyz")
+                        why = why or second.from_viewer(key_event(0, ord(ch)))
+                        want.append(["keyup", ch])
+                    why = why or second.lose()
+                    second = None
+            finally:
+                try:
+                    out.close()
+                except Exception:  # noqa: BLE001
+                    pass
+            camp.evaluations += 1
+            camp.count("one-output-file:" + ("overlapping-viewers" if overlapping else "reconnecting-viewer"))
+            camp.nontrivial.add(("reconnect", i, overlapping, len(want)))
+            got = [g[2:] for g in parse_script(open(path).read())]
+            if why is not None or got != want:
+                camp.oracle_failures.append({"kind": "oracle", "property": "C17", "case": {"pwreq": False, "chunks": [], "reconnect": True},
+                                             "what": f"vnclog FILE with {'two overlapping viewers' if overlapping else 'a viewer that reconnects'}: "
+                                                     + (f"the proxy raised {why!r}" if why is not None else
+                                                        f"{len(want)} key events were sent over all sessions, the file holds {len(got)} entries ({got[:6]})")})
+                return
+    finally:
+        import shutil
+        shutil.rmtree(tmp, ignore_errors=True)
 
 
 def replay(payload):
